@@ -235,7 +235,8 @@ def _redecl_one(item):
 
 SLIPS = ["alias_signal", "alias_instance", "call_returns_same", "rename_signal", "rename_instance", "rename_to_implicit", "stale_slice",
          "width_zero", "width_shrunk_under_slice", "ext_dup_ports", "alias_port", "alias_in_child", "same_name_below",
-         "rename_instance_like_signal", "rename_signal_like_instance", "rename_port_like_signal"]
+         "rename_instance_like_signal", "rename_signal_like_instance", "rename_port_like_signal",
+         "bad_edit_after_failure_late", "bad_edit_after_failure_early"]
 
 
 def _slip_one(kind):
@@ -310,6 +311,36 @@ def _slip_one(kind):
             buf.p, buf.q = h.Input(), h.Output()
             buf.s = stage(inv)(p=buf.p, q=buf.q)
             m.c = stage(buf)(p=m.y, q=m.w)
+        elif kind.startswith("bad_edit_after_failure"):
+            # an export fails (late: an array's port left unconnected, seen after flattening; early: an orphan signal); the
+            # designer then makes a faulty edit to a correct sub-module of the failed design - refused or accepted - and
+            # exports a new top that uses that sub-module
+            sub = h.Module(name="SSub")
+            sub.p, sub.q = h.Input(), h.Output()
+            sub.mid = h.Signal()
+            sub.j1 = inv(i=sub.p, z=sub.mid)
+            sub.j2 = inv(i=sub.mid, z=sub.q)
+            failing = h.Module(name="SFailing")
+            failing.a, failing.b = h.Signal(), h.Signal()
+            failing.s = sub(p=failing.a, q=failing.b)
+            if kind.endswith("late"):
+                failing.arr = 2 * inv(i=failing.a)  # z left unconnected
+            else:
+                failing.k = inv(i=failing.a, z=h.Signal(name="nobodys"))
+            try:
+                h.to_proto(failing)
+                return kind, "raised:harness: the faulty design was exported", None
+            except Exception:
+                pass
+            try:
+                sub.j3 = inv(i=sub.mid)  # z missing
+                sub.w2 = h.Signal(width=2)
+                sub.j4 = inv(i=sub.w2, z=sub.q)  # 2 bits on a 1-bit port
+            except Exception:
+                pass  # refused: the sub-module is in use
+            top = h.Module(name="STop2")
+            top.a, top.b = h.Signal(), h.Signal()
+            top.s = sub(p=top.a, q=top.b)
         elif kind == "alias_in_child":
             c = h.Module(name="SChild")
             c.p, c.q = h.Input(), h.Output()
